@@ -94,7 +94,7 @@ func main() {
 	sort.Slice(pkgs, func(i, j int) bool { return pkgs[i].PkgPath < pkgs[j].PkgPath })
 	for _, p := range pkgs {
 		st.Packages = append(st.Packages, p.PkgPath)
-		in := &instr{pkg: p, fset: p.Fset, info: p.TypesInfo, modPath: modPath, handledVars: map[string]bool{}}
+		in := &instr{pkg: p, fset: p.Fset, info: p.TypesInfo, modPath: modPath, handledVars: map[string]bool{}, resetByExpr: map[ast.Expr]string{}}
 		for i, f := range p.Syntax {
 			name := p.CompiledGoFiles[i]
 			if !strings.HasPrefix(name, abs) {
@@ -102,7 +102,8 @@ func main() {
 			}
 			resetVars := in.fileResetVars(f)
 			in.file(f)
-			resetFn := in.fileReset(resetVars)
+			resetFn := in.fileReset(f, resetVars)
+			in.renameInits(f)
 			f.Comments = nil
 			var buf bytes.Buffer
 			if err := format.Node(&buf, p.Fset, f); err != nil {
@@ -161,7 +162,9 @@ type instr struct {
 	used    bool
 
 	wasChanRange map[*ast.RangeStmt]bool
-	resetFuncs   []string
+	resetByExpr  map[ast.Expr]string // initialiser expression (original node) -> reset function
+	resetCount   int
+	initFuncs    []string
 	handledVars  map[string]bool
 	// local variables (and parameters) captured by the function literal of a
 	// go statement: shared between the spawning and the spawned goroutine
@@ -169,6 +172,10 @@ type instr struct {
 	// per-element tracking of slice accesses
 	elemModes map[*ast.IndexExpr]accessMode
 	elemSkip  map[*ast.IndexExpr]bool
+	twoValueRecv map[*ast.UnaryExpr]bool
+	goInfo       map[*ast.GoStmt]goHoist
+	sendAny      map[ast.Node]bool // send statements whose value must be converted to the interface element type
+	labeledSelect map[*ast.BlockStmt][]ast.Stmt // generated block -> hoists (label must move onto the switch)
 }
 
 func sel(name string) ast.Expr {
@@ -460,14 +467,60 @@ func (in *instr) computeModes(f *ast.File) {
 		}
 		return true
 	})
+	// Not accesses at all: the direct operand of & (taking an address reads
+	// nothing), identifiers redeclared on the left of := (they must stay plain
+	// names), and anything inside a constant expression (len of an array field
+	// used as an array length must stay constant).
+	noAccess := map[ast.Expr]bool{}
+	ast.Inspect(f, func(n ast.Node) bool {
+		switch x := n.(type) {
+		case *ast.UnaryExpr:
+			if x.Op == token.AND {
+				noAccess[stripValue(x.X)] = true
+			}
+		case *ast.AssignStmt:
+			if x.Tok == token.DEFINE {
+				for _, l := range x.Lhs {
+					noAccess[stripValue(l)] = true
+				}
+			}
+		case *ast.RangeStmt:
+			if x.Tok == token.DEFINE {
+				if x.Key != nil {
+					noAccess[stripValue(x.Key)] = true
+				}
+				if x.Value != nil {
+					noAccess[stripValue(x.Value)] = true
+				}
+			}
+		}
+		return true
+	})
 	// everything else that is a location is a read
 	ast.Inspect(f, func(n ast.Node) bool {
 		e, ok := n.(ast.Expr)
 		if !ok {
 			return true
 		}
+		if tv, ok := in.info.Types[e]; ok && tv.Value != nil {
+			// a constant expression: leave it (and everything inside it) alone
+			ast.Inspect(e, func(m ast.Node) bool {
+				if me, ok := m.(ast.Expr); ok {
+					delete(in.modes, me)
+					if ix, ok := me.(*ast.IndexExpr); ok {
+						delete(in.elemModes, ix)
+					}
+				}
+				return true
+			})
+			return false
+		}
 		switch e.(type) {
 		case *ast.Ident, *ast.SelectorExpr:
+			if noAccess[e] {
+				delete(in.modes, e)
+				return true
+			}
 			if _, done := in.modes[e]; !done && in.isLoc(e) {
 				in.modes[e] = modeR
 			}
@@ -545,8 +598,36 @@ func (in *instr) isChan(e ast.Expr) bool {
 	if !ok {
 		return false
 	}
-	_, isCh := tv.Type.Underlying().(*types.Chan)
+	_, isCh := coreChan(tv.Type)
 	return isCh
+}
+
+// coreChan: the channel type of t, also when t is a type parameter whose
+// constraint has a channel core type (~chan E).
+func coreChan(t types.Type) (*types.Chan, bool) {
+	if ch, ok := t.Underlying().(*types.Chan); ok {
+		return ch, true
+	}
+	if tp, ok := t.(*types.TypeParam); ok {
+		if iface, ok := tp.Constraint().Underlying().(*types.Interface); ok {
+			var found *types.Chan
+			for i := 0; i < iface.NumEmbeddeds(); i++ {
+				if u, ok := iface.EmbeddedType(i).(*types.Union); ok {
+					for k := 0; k < u.Len(); k++ {
+						if ch, ok := u.Term(k).Type().Underlying().(*types.Chan); ok {
+							found = ch
+						}
+					}
+				} else if ch, ok := iface.EmbeddedType(i).Underlying().(*types.Chan); ok {
+					found = ch
+				}
+			}
+			if found != nil {
+				return found, true
+			}
+		}
+	}
+	return nil, false
 }
 
 func (in *instr) isConst(e ast.Expr) bool {
@@ -557,6 +638,7 @@ func (in *instr) isConst(e ast.Expr) bool {
 func (in *instr) file(f *ast.File) {
 	in.computeModes(f)
 	in.skip = map[ast.Node]bool{}
+	in.labeledSelect = map[*ast.BlockStmt][]ast.Stmt{}
 	in.used = false
 	pre := func(c *astutil.Cursor) bool {
 		switch n := c.Node().(type) {
@@ -588,17 +670,15 @@ func (in *instr) file(f *ast.File) {
 		case *ast.SendStmt:
 			if !in.skip[n] {
 				st.Rewrites["send"]++
-				c.Replace(&ast.ExprStmt{X: in.call("Send", n.Chan, n.Value)})
+				if in.sendAny[n] {
+					c.Replace(&ast.ExprStmt{X: in.call("SendAny", n.Chan, n.Value)})
+				} else {
+					c.Replace(&ast.ExprStmt{X: in.call("Send", n.Chan, n.Value)})
+				}
 			}
 		case *ast.UnaryExpr:
 			if n.Op == token.ARROW && !in.skip[n] {
-				two := false
-				switch p := c.Parent().(type) {
-				case *ast.AssignStmt:
-					two = len(p.Lhs) == 2 && len(p.Rhs) == 1 && p.Rhs[0] == ast.Expr(n)
-				case *ast.ValueSpec:
-					two = len(p.Names) == 2 && len(p.Values) == 1 && p.Values[0] == ast.Expr(n)
-				}
+				two := in.twoValueRecv[n]
 				st.Rewrites["recv"]++
 				if two {
 					c.Replace(in.call("Recv2", n.X))
@@ -636,6 +716,13 @@ func (in *instr) file(f *ast.File) {
 				site := fmt.Sprintf("slice-element|%s|%s:%d", in.curFunc(), filepath.Base(pos.Filename), pos.Line)
 				c.Replace(&ast.ParenExpr{X: &ast.StarExpr{X: in.call(fn+"e", &ast.UnaryExpr{Op: token.AND, X: n}, strLit(site))}})
 			}
+		case *ast.LabeledStmt:
+			if blk, ok := n.Stmt.(*ast.BlockStmt); ok {
+				if pre, ok := in.labeledSelect[blk]; ok {
+					sw := blk.List[len(blk.List)-1]
+					c.Replace(&ast.BlockStmt{List: append(append([]ast.Stmt{}, pre...), &ast.LabeledStmt{Label: n.Label, Stmt: sw})})
+				}
+			}
 		case *ast.IncDecStmt:
 			in.splitRMW(c, n.X, n.Tok, nil)
 		case *ast.AssignStmt:
@@ -647,6 +734,45 @@ func (in *instr) file(f *ast.File) {
 		}
 		return true
 	}
+	in.analyseGo(f)
+	// sends of a concrete value on a channel of interface type: the generic
+	// Send cannot infer one T for both operands
+	in.sendAny = map[ast.Node]bool{}
+	ast.Inspect(f, func(n ast.Node) bool {
+		if sd, ok := n.(*ast.SendStmt); ok {
+			ct, ok1 := in.info.Types[sd.Chan]
+			vt, ok2 := in.info.Types[sd.Value]
+			if ok1 && ok2 {
+				if chT, ok := coreChan(ct.Type); ok {
+					if _, isIface := chT.Elem().Underlying().(*types.Interface); isIface && !types.Identical(chT.Elem(), vt.Type) {
+						in.sendAny[sd] = true
+					}
+				}
+			}
+		}
+		return true
+	})
+	// two-value receives, possibly parenthesised: v, ok := (<-ch)
+	in.twoValueRecv = map[*ast.UnaryExpr]bool{}
+	ast.Inspect(f, func(n ast.Node) bool {
+		var rhs ast.Expr
+		switch p := n.(type) {
+		case *ast.AssignStmt:
+			if len(p.Lhs) == 2 && len(p.Rhs) == 1 {
+				rhs = p.Rhs[0]
+			}
+		case *ast.ValueSpec:
+			if len(p.Names) == 2 && len(p.Values) == 1 {
+				rhs = p.Values[0]
+			}
+		}
+		if rhs != nil {
+			if u, ok := stripValue(rhs).(*ast.UnaryExpr); ok && u.Op == token.ARROW {
+				in.twoValueRecv[u] = true
+			}
+		}
+		return true
+	})
 	// Range-over-channel detection must look at the operand before its
 	// children are rewritten (type info is keyed by the original nodes).
 	in.wasChanRange = map[*ast.RangeStmt]bool{}
@@ -670,6 +796,9 @@ func (in *instr) file(f *ast.File) {
 		if imp.Name != nil && (imp.Name.Name == "_" || imp.Name.Name == ".") {
 			continue
 		}
+		if !emptiedByRewrite[path] {
+			continue
+		}
 		if !astutil.UsesImport(f, path) {
 			name := ""
 			if imp.Name != nil {
@@ -683,9 +812,12 @@ func (in *instr) file(f *ast.File) {
 	}
 }
 
+// imports whose uses the rewrite may remove completely
+var emptiedByRewrite = map[string]bool{"sync": true, "sync/atomic": true, "runtime": true, "time": true, "crypto/rand": true}
+
 var atomicFuncs = func() map[string]bool {
 	m := map[string]bool{}
-	for _, op := range []string{"Add", "Load", "Store", "Swap", "CompareAndSwap"} {
+	for _, op := range []string{"Add", "Load", "Store", "Swap", "CompareAndSwap", "And", "Or"} {
 		for _, ty := range []string{"Int32", "Int64", "Uint32", "Uint64"} {
 			m[op+ty] = true
 		}
@@ -761,12 +893,21 @@ func (in *instr) splitRMW(c *astutil.Cursor, lhs ast.Expr, tok token.Token, rhs 
 	st.Rewrites["rmw_split"]++
 	p := in.fresh("P")
 	v := in.fresh("V")
-	blk := &ast.BlockStmt{List: []ast.Stmt{
+	var first []ast.Stmt
+	if rhs != nil && !in.isConstRewritten(rhs) && op != token.SHL && op != token.SHR {
+		// Go evaluates the right-hand side (calls, receives) before it loads the
+		// left-hand side: so does the split, otherwise the window between load and
+		// store would contain operations the real statement runs before the load.
+		y := in.fresh("Y")
+		first = append(first, &ast.AssignStmt{Lhs: []ast.Expr{y}, Tok: token.DEFINE, Rhs: []ast.Expr{rhs}})
+		operand = y
+	}
+	blk := &ast.BlockStmt{List: append(first, []ast.Stmt{
 		&ast.AssignStmt{Lhs: []ast.Expr{p}, Tok: token.DEFINE, Rhs: []ast.Expr{call}},
 		&ast.AssignStmt{Lhs: []ast.Expr{v}, Tok: token.DEFINE, Rhs: []ast.Expr{&ast.StarExpr{X: p}}},
 		&ast.ExprStmt{X: in.call("AccessYield", p)},
 		&ast.AssignStmt{Lhs: []ast.Expr{&ast.StarExpr{X: p}}, Tok: token.ASSIGN, Rhs: []ast.Expr{&ast.BinaryExpr{X: v, Op: op, Y: operand}}},
-	}}
+	}...)}
 	c.Replace(blk)
 }
 
@@ -891,6 +1032,11 @@ func (in *instr) selector(c *astutil.Cursor, n *ast.SelectorExpr) {
 					}
 				}
 				return
+			case "context", "os/signal":
+				if _, isType := obj.(*types.TypeName); !isType {
+					unsupported(in.fset, n.Pos(), path+"."+obj.Name()+" (channels closed or fed outside the simulator)")
+				}
+				return
 			case "crypto/rand":
 				if v, ok := obj.(*types.Var); ok && v.Name() == "Reader" {
 					st.Rewrites["rand_reader"]++
@@ -907,39 +1053,22 @@ func (in *instr) selector(c *astutil.Cursor, n *ast.SelectorExpr) {
 
 func (in *instr) goStmt(c *astutil.Cursor, n *ast.GoStmt) {
 	st.Rewrites["go"]++
-	var pre []ast.Stmt
+	info := in.goInfo[n]
 	callee := n.Call.Fun
-	hoistFun := true
-	switch f := stripValue(callee).(type) {
-	case *ast.FuncLit:
-		hoistFun = false
-	case *ast.Ident:
-		if _, ok := in.info.Uses[f].(*types.Func); ok {
-			hoistFun = false
-		}
-		if _, ok := in.info.Uses[f].(*types.Builtin); ok {
-			hoistFun = false
-		}
-	case *ast.SelectorExpr:
-		if _, isSel := in.info.Selections[f]; !isSel {
-			hoistFun = false // pkg.Func
-		}
-	case *ast.IndexExpr, *ast.IndexListExpr:
-		hoistFun = false // explicit instantiation
-	}
-	if hoistFun {
+	var lhs, rhs []ast.Expr
+	if info.hoistFun {
 		id := in.fresh("F")
-		pre = append(pre, &ast.AssignStmt{Lhs: []ast.Expr{id}, Tok: token.DEFINE, Rhs: []ast.Expr{callee}})
+		lhs, rhs = append(lhs, id), append(rhs, callee)
 		callee = id
 	}
 	var args []ast.Expr
-	for _, a := range n.Call.Args {
-		if in.isConstRewritten(a) {
+	for i, a := range n.Call.Args {
+		if i < len(info.keepArg) && info.keepArg[i] {
 			args = append(args, a)
 			continue
 		}
 		id := in.fresh("A")
-		pre = append(pre, &ast.AssignStmt{Lhs: []ast.Expr{id}, Tok: token.DEFINE, Rhs: []ast.Expr{a}})
+		lhs, rhs = append(lhs, id), append(rhs, a)
 		args = append(args, id)
 	}
 	inner := &ast.CallExpr{Fun: callee, Args: args, Ellipsis: n.Call.Ellipsis}
@@ -947,8 +1076,76 @@ func (in *instr) goStmt(c *astutil.Cursor, n *ast.GoStmt) {
 		inner.Ellipsis = 1
 	}
 	lit := &ast.FuncLit{Type: &ast.FuncType{Params: &ast.FieldList{}}, Body: &ast.BlockStmt{List: []ast.Stmt{&ast.ExprStmt{X: inner}}}}
+	var pre []ast.Stmt
+	if len(lhs) > 0 {
+		// ONE tuple assignment: function value and arguments are evaluated in
+		// the order in which the go statement evaluates them
+		pre = append(pre, &ast.AssignStmt{Lhs: lhs, Tok: token.DEFINE, Rhs: rhs})
+	}
 	pre = append(pre, &ast.ExprStmt{X: in.call("Go", lit)})
 	c.Replace(&ast.BlockStmt{List: pre})
+}
+
+type goHoist struct {
+	hoistFun bool
+	keepArg  []bool
+}
+
+// analyseGo decides, on the ORIGINAL syntax (type information is keyed by it),
+// what a go statement's rewrite must hoist.
+func (in *instr) analyseGo(f *ast.File) {
+	in.goInfo = map[*ast.GoStmt]goHoist{}
+	ast.Inspect(f, func(nn ast.Node) bool {
+		n, ok := nn.(*ast.GoStmt)
+		if !ok {
+			return true
+		}
+		h := goHoist{hoistFun: true}
+		switch fx := stripValue(n.Call.Fun).(type) {
+		case *ast.FuncLit:
+			h.hoistFun = false
+		case *ast.Ident:
+			if _, ok := in.info.Uses[fx].(*types.Func); ok {
+				h.hoistFun = false
+			}
+			if _, ok := in.info.Uses[fx].(*types.Builtin); ok {
+				h.hoistFun = false
+			}
+		case *ast.SelectorExpr:
+			if _, isSel := in.info.Selections[fx]; !isSel {
+				h.hoistFun = false // pkg.Func
+			}
+		case *ast.IndexExpr:
+			// f[T] (explicit instantiation) is not a value to hoist; m[k] and a[i] are
+			if tv, ok := in.info.Types[fx.X]; ok {
+				if _, isSig := tv.Type.Underlying().(*types.Signature); isSig {
+					h.hoistFun = false
+				}
+			}
+		case *ast.IndexListExpr:
+			h.hoistFun = false
+		}
+		for _, a := range n.Call.Args {
+			tv, ok := in.info.Types[a]
+			keep := false
+			switch {
+			case !ok:
+			case tv.Value != nil || tv.IsNil():
+				keep = true // constants keep their untyped flexibility
+			default:
+				if _, isTuple := tv.Type.(*types.Tuple); isTuple {
+					unsupported(in.fset, a.Pos(), "go statement whose argument is a multi-value call")
+					keep = true
+				} else if b, isBasic := tv.Type.(*types.Basic); isBasic && b.Info()&types.IsUntyped != 0 {
+					unsupported(in.fset, a.Pos(), "go statement with an untyped non-constant argument")
+					keep = true
+				}
+			}
+			h.keepArg = append(h.keepArg, keep)
+		}
+		in.goInfo[n] = h
+		return true
+	})
 }
 
 // isConstRewritten: literal arguments need no hoisting (and would lose their
@@ -971,36 +1168,36 @@ func (in *instr) rangeChan(c *astutil.Cursor, n *ast.RangeStmt) {
 	st.Rewrites["range_chan"]++
 	ch := in.fresh("C")
 	ok := in.fresh("Ok")
-	var key ast.Expr = ast.NewIdent("_")
-	if n.Key != nil {
-		key = n.Key
-	}
-	var recv ast.Stmt
-	if n.Tok == token.ASSIGN {
-		recv = &ast.BlockStmt{List: []ast.Stmt{}}
-		body := []ast.Stmt{
-			&ast.DeclStmt{Decl: &ast.GenDecl{Tok: token.VAR, Specs: []ast.Spec{&ast.ValueSpec{Names: []*ast.Ident{ok}, Type: ast.NewIdent("bool")}}}},
-			&ast.AssignStmt{Lhs: []ast.Expr{key, ok}, Tok: token.ASSIGN, Rhs: []ast.Expr{in.call("Recv2", ch)}},
-			&ast.IfStmt{Cond: &ast.UnaryExpr{Op: token.NOT, X: ok}, Body: &ast.BlockStmt{List: []ast.Stmt{&ast.BranchStmt{Tok: token.BREAK}}}},
+	tmp := in.fresh("T")
+	brk := &ast.IfStmt{Cond: &ast.UnaryExpr{Op: token.NOT, X: ok}, Body: &ast.BlockStmt{List: []ast.Stmt{&ast.BranchStmt{Tok: token.BREAK}}}}
+	// the original body keeps its own block (it may redeclare the key)
+	inner := &ast.BlockStmt{List: n.Body.List}
+	var body []ast.Stmt
+	switch {
+	case n.Key == nil:
+		body = []ast.Stmt{
+			&ast.AssignStmt{Lhs: []ast.Expr{ast.NewIdent("_"), ok}, Tok: token.DEFINE, Rhs: []ast.Expr{in.call("Recv2", ch)}},
+			brk, inner,
 		}
-		body = append(body, n.Body.List...)
-		c.Replace(&ast.ForStmt{Init: &ast.AssignStmt{Lhs: []ast.Expr{ch}, Tok: token.DEFINE, Rhs: []ast.Expr{n.X}}, Body: &ast.BlockStmt{List: body}})
-		_ = recv
-		return
+	case n.Tok == token.ASSIGN:
+		// `for x = range ch`: x keeps its last value when the channel is closed
+		body = []ast.Stmt{
+			&ast.AssignStmt{Lhs: []ast.Expr{tmp, ok}, Tok: token.DEFINE, Rhs: []ast.Expr{in.call("Recv2", ch)}},
+			brk,
+			&ast.AssignStmt{Lhs: []ast.Expr{n.Key}, Tok: token.ASSIGN, Rhs: []ast.Expr{tmp}},
+			inner,
+		}
+	default:
+		body = []ast.Stmt{
+			&ast.AssignStmt{Lhs: []ast.Expr{n.Key, ok}, Tok: token.DEFINE, Rhs: []ast.Expr{in.call("Recv2", ch)}},
+			brk, inner,
+		}
 	}
-	body := []ast.Stmt{
-		&ast.AssignStmt{Lhs: []ast.Expr{key, ok}, Tok: token.DEFINE, Rhs: []ast.Expr{in.call("Recv2", ch)}},
-		&ast.IfStmt{Cond: &ast.UnaryExpr{Op: token.NOT, X: ok}, Body: &ast.BlockStmt{List: []ast.Stmt{&ast.BranchStmt{Tok: token.BREAK}}}},
-	}
-	body = append(body, n.Body.List...)
 	c.Replace(&ast.ForStmt{Init: &ast.AssignStmt{Lhs: []ast.Expr{ch}, Tok: token.DEFINE, Rhs: []ast.Expr{n.X}}, Body: &ast.BlockStmt{List: body}})
 }
 
 func (in *instr) selectStmt(c *astutil.Cursor, n *ast.SelectStmt) {
-	if _, labeled := c.Parent().(*ast.LabeledStmt); labeled {
-		unsupported(in.fset, n.Pos(), "labeled select")
-		return
-	}
+	_, labeled := c.Parent().(*ast.LabeledStmt)
 	st.Rewrites["select"]++
 	var pre []ast.Stmt
 	var cases []ast.Expr
@@ -1025,8 +1222,13 @@ func (in *instr) selectStmt(c *astutil.Cursor, n *ast.SelectStmt) {
 				pre = append(pre, &ast.AssignStmt{Lhs: []ast.Expr{v}, Tok: token.DEFINE, Rhs: []ast.Expr{s.Value}})
 				val = v
 			}
-			cases = append(cases, in.call("SendCase", ch, val))
-			first = &ast.ExprStmt{X: in.call("SelSend", ch, val)}
+			if in.sendAny[s] {
+				cases = append(cases, in.call("SendCaseAny", ch, val))
+				first = &ast.ExprStmt{X: in.call("SelSendAny", ch, val)}
+			} else {
+				cases = append(cases, in.call("SendCase", ch, val))
+				first = &ast.ExprStmt{X: in.call("SelSend", ch, val)}
+			}
 		case *ast.ExprStmt:
 			u := stripValue(s.X).(*ast.UnaryExpr)
 			pre = append(pre, &ast.AssignStmt{Lhs: []ast.Expr{ch}, Tok: token.DEFINE, Rhs: []ast.Expr{u.X}})
@@ -1055,8 +1257,13 @@ func (in *instr) selectStmt(c *astutil.Cursor, n *ast.SelectStmt) {
 	}
 	args := append([]ast.Expr{hd}, cases...)
 	sw := &ast.SwitchStmt{Tag: in.call("Select", args...), Body: &ast.BlockStmt{List: clauses}}
-	pre = append(pre, sw)
-	c.Replace(&ast.BlockStmt{List: pre})
+	blk := &ast.BlockStmt{List: append(append([]ast.Stmt{}, pre...), sw)}
+	if labeled {
+		// the enclosing LabeledStmt is rewritten when it is left (post order): the
+		// label has to sit on the switch, which is what `break L` must refer to
+		in.labeledSelect[blk] = pre
+	}
+	c.Replace(blk)
 }
 
 // fileResetVars / fileReset produce the source of a function, appended to the
@@ -1067,9 +1274,11 @@ func (in *instr) selectStmt(c *astutil.Cursor, n *ast.SelectStmt) {
 // has.  Re-running initialisers puts lazily filled caches and registries back
 // into their cold, first-use state.
 type resetVar struct {
-	name string
-	spec *ast.ValueSpec
-	idx  int
+	names []string
+	value ast.Expr // the ORIGINAL initialiser: the key of types.Info.InitOrder
+	spec  *ast.ValueSpec
+	idx   int // printed after the rewrite as spec.Values[idx]
+	first *types.Var
 }
 
 func (in *instr) fileResetVars(f *ast.File) []resetVar {
@@ -1081,21 +1290,38 @@ func (in *instr) fileResetVars(f *ast.File) []resetVar {
 		}
 		for _, sp := range gd.Specs {
 			vs := sp.(*ast.ValueSpec)
-			if len(vs.Values) != len(vs.Names) {
+			if len(vs.Values) == 0 {
+				continue
+			}
+			if len(vs.Values) == 1 && len(vs.Names) > 1 {
+				// var a, b = f(): one initialiser for all of them
+				rv := resetVar{value: vs.Values[0], spec: vs, idx: 0}
+				for _, name := range vs.Names {
+					rv.names = append(rv.names, name.Name)
+					if obj, _ := in.info.Defs[name].(*types.Var); obj != nil && rv.first == nil {
+						rv.first = obj
+					}
+					in.handledVars[name.Name] = true
+				}
+				if rv.first != nil {
+					out = append(out, rv)
+				}
 				continue
 			}
 			for i, name := range vs.Names {
-				if name.Name == "_" {
+				obj, _ := in.info.Defs[name].(*types.Var)
+				if obj == nil && name.Name == "_" {
+					// blank variables have no object; they are found by their initialiser
+					out = append(out, resetVar{names: []string{"_"}, value: vs.Values[i], spec: vs, idx: i})
 					continue
 				}
-				obj, _ := in.info.Defs[name].(*types.Var)
 				if obj == nil || isSyncType(obj.Type()) {
 					continue
 				}
 				if _, isFunc := obj.Type().Underlying().(*types.Signature); isFunc {
 					continue
 				}
-				out = append(out, resetVar{name.Name, vs, i})
+				out = append(out, resetVar{names: []string{name.Name}, value: vs.Values[i], spec: vs, idx: i, first: obj})
 				in.handledVars[name.Name] = true
 			}
 		}
@@ -1103,21 +1329,43 @@ func (in *instr) fileResetVars(f *ast.File) []resetVar {
 	return out
 }
 
-func (in *instr) fileReset(vars []resetVar) string {
-	var stmts []string
+// fileReset prints one function per initialiser (SimReset calls them in the
+// package's initialisation order, which may cross files) and turns every
+// init() of the file into a named function that SimReset can run again.
+func (in *instr) fileReset(f *ast.File, vars []resetVar) string {
+	var b strings.Builder
 	for _, v := range vars {
 		var eb bytes.Buffer
 		if err := format.Node(&eb, in.fset, v.spec.Values[v.idx]); err != nil {
 			continue
 		}
-		stmts = append(stmts, fmt.Sprintf("\t%s = %s\n", v.name, eb.String()))
+		fn := fmt.Sprintf("simResetInit%d", in.resetCount)
+		in.resetCount++
+		in.resetByExpr[v.value] = fn
+		fmt.Fprintf(&b, "\nfunc %s() {\n\t%s = %s\n}\n", fn, strings.Join(v.names, ", "), eb.String())
 	}
-	if len(stmts) == 0 {
-		return ""
+	return b.String()
+}
+
+// renameInits: func init() { body } becomes func simInitN() { body } plus
+// func init() { simInitN() }, so that a cold start can replay it.
+func (in *instr) renameInits(f *ast.File) {
+	var extra []ast.Decl
+	for _, d := range f.Decls {
+		fd, ok := d.(*ast.FuncDecl)
+		if !ok || fd.Recv != nil || fd.Name.Name != "init" || fd.Body == nil {
+			continue
+		}
+		name := fmt.Sprintf("simInit%d", len(in.initFuncs))
+		in.initFuncs = append(in.initFuncs, name)
+		fd.Name = ast.NewIdent(name)
+		extra = append(extra, &ast.FuncDecl{
+			Name: ast.NewIdent("init"),
+			Type: &ast.FuncType{Params: &ast.FieldList{}},
+			Body: &ast.BlockStmt{List: []ast.Stmt{&ast.ExprStmt{X: &ast.CallExpr{Fun: ast.NewIdent(name)}}}},
+		})
 	}
-	fn := fmt.Sprintf("simResetFile%d", len(in.resetFuncs))
-	in.resetFuncs = append(in.resetFuncs, fn)
-	return "\nfunc " + fn + "() {\n" + strings.Join(stmts, "") + "}\n"
+	f.Decls = append(f.Decls, extra...)
 }
 
 // writeReset generates SimReset(), which puts the package-level state of the
@@ -1201,7 +1449,26 @@ func (in *instr) writeReset(dir string) {
 	for _, s := range stmts {
 		b.WriteString("\t" + s + "\n")
 	}
-	for _, fn := range in.resetFuncs {
+	// initialisers in the order in which the package initialises them, then
+	// the init functions in the order in which the files were presented
+	done := map[string]bool{}
+	for _, ini := range in.info.InitOrder {
+		if fn, ok := in.resetByExpr[ini.Rhs]; ok && !done[fn] {
+			done[fn] = true
+			b.WriteString("\t" + fn + "()\n")
+		}
+	}
+	var rest []string
+	for _, fn := range in.resetByExpr {
+		if !done[fn] {
+			rest = append(rest, fn)
+		}
+	}
+	sort.Strings(rest)
+	for _, fn := range rest {
+		b.WriteString("\t" + fn + "()\n")
+	}
+	for _, fn := range in.initFuncs {
 		b.WriteString("\t" + fn + "()\n")
 	}
 	b.WriteString("}\n")
